@@ -124,10 +124,12 @@ def model_results(mline):
 def run_real(p, cats, gram, doc, scores, **kw):
     """depccg.parsing.run on a batch; returns list of per-sentence [(score_int or None, tree_sig)]"""
     st = native.setup()
+    funcs = kw.pop('funcs', None)
     args = dict(unary_penalty=p.penalty / S.SCALE, beta=p.beta, use_beta=p.use_beta, pruning_size=p.pruning,
                 nbest=p.nbest, max_step=p.max_step)
     args.update(kw)
-    res = st['parsing'].run(doc, scores, cats[:p.T], [cats[r] for r in p.roots], gram.binary, gram.unary, **args)
+    bfun, ufun = funcs if funcs else (gram.binary, gram.unary)
+    res = st['parsing'].run(doc, scores, cats[:p.T], [cats[r] for r in p.roots], bfun, ufun, **args)
     return res
 
 
@@ -142,3 +144,139 @@ def canon_results(res):
                 cur.append((S.to_int(score), tree_sig(tree)))
         out.append(cur)
     return out
+
+
+def retrieve_line(p, cats, gram, toks, d):
+    """protocol line for the model of retrieve_tree: category table, cache rows (as the glue fills
+    them from the grammar functions), tokens, derivation"""
+    import tree_common as T
+    from wire import enc_cat, enc_str
+    K = len(cats)
+    parts = ['retrieve', str(K)] + [enc_cat(c) for c in cats]
+    ids = {c: i for i, c in enumerate(cats)}
+    rows = []
+    for (x, y) in p.bin:
+        rs = gram.binary(cats[x], cats[y])
+        rows.append(f'{x} {y} {len(rs)} ' + ' '.join(f'{ids[r.cat]} {1 if r.head_is_left else 0} {enc_str(r.op_string)} {enc_str(r.op_symbol)}' for r in rs))
+    parts.append(str(len(rows)))
+    parts += rows
+    urows = []
+    for x in p.un:
+        rs = gram.unary(cats[x])
+        urows.append(f'{x} {len(rs)} ' + ' '.join(f'{ids[r.cat]} 1 {enc_str(r.op_string)} {enc_str(r.op_symbol)}' for r in rs))
+    parts.append(str(len(urows)))
+    parts += urows
+    parts.append(str(len(toks)))
+    parts += [T.enc_tok(t) for t in toks]
+    parts.append(S.enc_deriv(d))
+    return ' '.join(' '.join(parts).split())
+
+
+class ResultTableGrammar(object):
+    """the real rule functions tabulated on a finite set of categories (results kept as returned)"""
+
+    def __init__(self, cats, bin_results, un_results):
+        self.cats = cats
+        self.ids = {c: i for i, c in enumerate(cats)}
+        self.binr = bin_results       # (x_id, y_id) -> [CombinatorResult]
+        self.unr = un_results         # x_id -> [CombinatorResult]
+
+    def binary(self, x, y):
+        return list(self.binr.get((self.ids.get(x), self.ids.get(y)), []))
+
+    def unary(self, x):
+        return list(self.unr.get(self.ids.get(x), []))
+
+
+def real_grammar_problem(rng, lang, max_cats=70):
+    """a small sentence over the real grammar: lexical categories from a licensed derivation plus
+    distractors; the real rule functions tabulated on the closure of everything buildable"""
+    from depccg.grammar import en, ja
+    import functools
+    import grammar_common
+    import tree_common as T
+    mod = en if lang == 'en' else ja
+    unary_tbl = grammar_common.unary_table(lang)
+    bfun = mod.apply_binary_rules
+    ufun = functools.partial(mod.apply_unary_rules, unary_rules=unary_tbl)
+    gold = T.licensed_tree(rng, lang, rng.randint(0, 2), dict(awkward=0.0))
+    gold_leaves = [l.cat for l in gold.leaves]
+    n = len(gold_leaves)
+    if n > 4:
+        return None
+    pairs = T.lexicon(lang)
+    lex = []
+    for c in gold_leaves:
+        if c not in lex:
+            lex.append(c)
+    for _ in range(rng.randint(1, 3)):
+        c = rng.choice(rng.choice(pairs))
+        if c not in lex:
+            lex.append(c)
+    cats = list(lex)
+    ids = {c: i for i, c in enumerate(cats)}
+
+    def cid(c):
+        if c not in ids:
+            ids[c] = len(cats)
+            cats.append(c)
+        return ids[c]
+    binr, unr = {}, {}
+
+    def close_unary(level):
+        frontier = list(level)
+        depth = 0
+        while frontier and depth < 3:
+            nxt = []
+            for x in frontier:
+                if x in unr:
+                    continue
+                rs = ufun(cats[x])
+                unr[x] = rs
+                for r in rs:
+                    k = cid(r.cat)
+                    if k not in level:
+                        level.add(k)
+                        nxt.append(k)
+            frontier = nxt
+            depth += 1
+        return level
+    by_len = {1: close_unary(set(range(len(lex))))}
+    for length in range(2, n + 1):
+        cur = set()
+        for a in range(1, length):
+            for x in by_len[a]:
+                for y in by_len[length - a]:
+                    if (x, y) not in binr:
+                        binr[(x, y)] = bfun(cats[x], cats[y])
+                    for r in binr[(x, y)]:
+                        cur.add(cid(r.cat))
+            if len(cats) > max_cats:
+                return None
+        by_len[length] = close_unary(cur) if length < n else cur
+    for x in list(unr):
+        if not unr[x]:
+            del unr[x]
+    for k in list(binr):
+        if not binr[k]:
+            del binr[k]
+    p = S.Problem()
+    p.n, p.T = n, len(lex)
+    lo = -rng.choice([300, 1500])
+    p.tags = [[rng.randint(lo, 0) for _ in range(p.T)] for _ in range(n)]
+    for i, c in enumerate(gold_leaves):
+        p.tags[i][ids[c]] = rng.randint(-40, 0)
+    p.deps = [[rng.randint(lo, 0) for _ in range(n + 1)] for _ in range(n)]
+    top = [k for k in by_len[n]]
+    if not top:
+        return None
+    p.roots = sorted(set(rng.sample(top, min(len(top), rng.randint(1, 3))) + ([ids[gold.cat]] if gold.cat in ids else [])))
+    p.penalty = rng.choice([0, 6, 13])
+    p.nbest = rng.choice([1, 1, 1, 2, 3])
+    p.bin = {k: [(ids[r.cat], bool(r.head_is_left)) for r in v] for k, v in binr.items()}
+    p.un = {k: [ids[r.cat] for r in v] for k, v in unr.items()}
+    heads = {h for v in p.bin.values() for _, h in v}
+    p.head_uniform = len(heads) <= 1
+    gram = ResultTableGrammar(cats, binr, unr)
+    toks = [Token.of_word(f'w{i}') for i in range(n)]
+    return p, cats, gram, toks, (bfun, ufun)
